@@ -639,7 +639,7 @@ impl<'a> Parser<'a> {
                                     let extra_full_minutes: f64 = extra_minutes.trunc();
                                     duration.minutes += extra_full_minutes as u32;
                                     let extra_seconds =
-                                        ((extra_minutes - extra_full_minutes) * 60.0).round();
+                                        (extra_minutes - extra_full_minutes) * 60.0;
                                     let extra_full_seconds = extra_seconds.trunc();
                                     duration.seconds += extra_full_seconds as u32;
                                     let micro_extra = ((extra_seconds - extra_full_seconds)
@@ -734,11 +734,11 @@ impl<'a> Parser<'a> {
                                     let extra_full_hours = extra_hours.trunc();
                                     duration.hours += extra_full_hours as u32;
                                     let extra_minutes =
-                                        ((extra_hours - extra_full_hours) * 60.0).round();
+                                        (extra_hours - extra_full_hours) * 60.0;
                                     let extra_full_minutes: f64 = extra_minutes.trunc();
                                     duration.minutes += extra_full_minutes as u32;
                                     let extra_seconds =
-                                        ((extra_minutes - extra_full_minutes) * 60.0).round();
+                                        (extra_minutes - extra_full_minutes) * 60.0;
                                     let extra_full_seconds = extra_seconds.trunc();
                                     duration.seconds += extra_full_seconds as u32;
                                     let micro_extra = ((extra_seconds - extra_full_seconds)
@@ -761,11 +761,11 @@ impl<'a> Parser<'a> {
                                     let extra_full_hours = extra_hours.trunc();
                                     duration.hours += extra_full_hours as u32;
                                     let extra_minutes =
-                                        ((extra_hours - extra_full_hours) * 60.0).round();
+                                        (extra_hours - extra_full_hours) * 60.0;
                                     let extra_full_minutes: f64 = extra_minutes.trunc();
                                     duration.minutes += extra_full_minutes as u32;
                                     let extra_seconds =
-                                        ((extra_minutes - extra_full_minutes) * 60.0).round();
+                                        (extra_minutes - extra_full_minutes) * 60.0;
                                     let extra_full_seconds = extra_seconds.trunc();
                                     duration.seconds += extra_full_seconds as u32;
                                     let micro_extra = ((extra_seconds - extra_full_seconds)
